@@ -2,7 +2,7 @@
 (***************************************************************************)
 (* Concrete model (layer C) of the editing code of kyupy.circuit           *)
 (* (GrowingList, IndexList, Node, Line, Circuit.eliminate_1to1_forks,      *)
-(* copy, pickle).  The whole circuit is one record S; pure operators       *)
+(* substitute, remove_dangling_nodes, copy, pickle).  The whole circuit is one record S; pure operators       *)
 (* mirror the methods literally (swap-with-last with explicit index        *)
 (* fields, GrowingList growth, free_index, fork squeeze) and actions       *)
 (* compose them the way the code composes method calls.  Object identity   *)
@@ -11,8 +11,9 @@
 (* state within the bounds.  Generation (R): every distinct (canonical     *)
 (* state, last edit) is printed with an edit history reaching it.          *)
 (***************************************************************************)
-EXTENDS Integers, Sequences, FiniteSets, TLC, SequencesExt
-CONSTANTS NAMES, CELLKINDS, MAXNODES, MAXLINES, MAXPIN, MAXDEPTH
+EXTENDS Integers, Sequences, FiniteSets, TLC, SequencesExt, CircuitImpls
+CONSTANTS NAMES, CELLKINDS, MAXNODES, MAXLINES, MAXPIN, MAXDEPTH,
+          SUBIMPLS      \* positions in IMPLS (CircuitImpls.tla) that the Subst action may use
 FORK == "__fork__"
 VARIABLE S        \* the whole circuit as one record (actions are compositions of pure operators, like the code composes method calls)
 VARIABLE last     \* last edit as an abstract operation (positions, not ids)
@@ -63,17 +64,18 @@ OpNewLine(s, d, dpin, r, rpin) ==
 OpRemoveLine(s, l) ==
     LET L == s.ln[l]
         d == L.drv
-        outs1 == [s.nd[d].outs EXCEPT ![L.dpin + 1] = 0]
-        isfork == s.nd[d].kind = FORK
+        dlive == d \in DOMAIN s.nd
+        outs1 == IF dlive THEN [s.nd[d].outs EXCEPT ![L.dpin + 1] = 0] ELSE <<>>
+        isfork == dlive /\ s.nd[d].kind = FORK
         outs2 == IF isfork THEN DelAt(outs1, L.dpin) ELSE outs1
-        nd1 == [s.nd EXCEPT ![d].outs = outs2]
+        nd1 == IF d \in DOMAIN s.nd THEN [s.nd EXCEPT ![d].outs = outs2] ELSE s.nd     \* (a removed node object is not in the table)
         \* squeeze: renumber driver_pin of all remaining lines on the fork
         ln1 == IF isfork THEN [x \in DOMAIN s.ln |->
                      IF \E k \in 1..Len(outs2) : outs2[k] = x
                      THEN [s.ln[x] EXCEPT !.dpin = (CHOOSE k \in 1..Len(outs2) : outs2[k] = x) - 1]
                      ELSE s.ln[x]]
                ELSE s.ln
-        nd2 == [nd1 EXCEPT ![L.rdr].ins = [@ EXCEPT ![L.rpin + 1] = 0]]
+        nd2 == IF L.rdr \in DOMAIN nd1 THEN [nd1 EXCEPT ![L.rdr].ins = [@ EXCEPT ![L.rpin + 1] = 0]] ELSE nd1
         r == IndexDel(s.lines, ln1, L.idx)
     IN [s EXCEPT !.nd = nd2, !.lines = r.list, !.ln = Del(r.tbl, l)]
 \* ---- Node.remove ----
@@ -140,6 +142,69 @@ ElimReady == /\ ForkAcyclic
 Eliminate == /\ ElimReady
              /\ S' = FoldLeft(ElimOne, S, S.forder)
              /\ Did(<<"Elim">>)
+\* ---- Circuit.remove_dangling_nodes(root) ----
+SeqKind(k) == k \in {"DFF", "dff", "LATCH", "latch", "DFFX1", "SDFF", "dffr"}      \* 'dff' / 'latch' in kind.lower() for the kinds in use
+RECURSIVE Dangle(_, _)
+Dangle(s, n) ==
+    IF n \notin DOMAIN s.nd THEN s                      \* visited through two lines: already removed
+    ELSE LET N == s.nd[n] IN
+         IF (\E k \in 1..Len(N.outs) : N.outs[k] # 0) \/ (\E k \in 1..Len(s.io) : s.io[k] = n) \/ SeqKind(N.kind) THEN s
+         ELSE LET lines == SelectSeq(N.ins, LAMBDA x : x # 0)
+                  drivers == [k \in 1..Len(lines) |-> s.ln[lines[k]].drv]
+                  s1 == OpRemoveNode(s, n)
+                  s2 == FoldLeft(LAMBDA acc, l : OpRemoveLine(acc, l), s1, lines)
+              IN FoldLeft(LAMBDA acc, d : Dangle(acc, d), s2, drivers)
+\* ---- Circuit.substitute(node, impl): I is a record of CircuitImpls.IMPLS (0-based indices, -1 = open pin) ----
+INd(I, i) == I.nodes[i + 1]
+ILn(I, j) == I.lines[j + 1]                               \* <<driver, driver pin, reader, reader pin>>
+IsIo(I, i) == \E k \in 1..Len(I.io) : I.io[k] = i
+InNodes(I) == SelectSeq(I.io, LAMBDA i : Len(INd(I, i).ins) = 0)
+OutLines(I) == LET o == SelectSeq(I.io, LAMBDA i : Len(INd(I, i).ins) > 0) IN [k \in 1..Len(o) |-> INd(I, o[k]).ins[1]]
+RECURSIVE UpToCell(_, _)
+UpToCell(I, n) == IF INd(I, n).kind = FORK /\ ~IsIo(I, n) THEN UpToCell(I, ILn(I, INd(I, n).ins[1])[1]) ELSE n
+Designated(I) == IF OutLines(I) = <<>> THEN -1 ELSE UpToCell(I, ILn(I, OutLines(I)[1])[1])
+OpSubst(s, node, I) ==
+    LET N == s.nd[node]
+        inN == InNodes(I)
+        outL == OutLines(I)
+        des == Designated(I)
+        nodeIn == N.ins \o [k \in 1..(Len(inN) - Len(N.ins)) |-> 0]
+        nodeOut == N.outs \o [k \in 1..(Len(outL) - Len(N.outs)) |-> 0]
+        \* the replaced node becomes the designated cell (keeps its index and name) or is removed
+        s0 == IF des # -1 THEN [s EXCEPT !.nd[node].kind = INd(I, des).kind, !.nd[node].ins = <<>>, !.nd[node].outs = <<>>]
+              ELSE OpRemoveNode(s, node)
+        m0 == IF des # -1 THEN [x \in {des} |-> node] ELSE [x \in {} |-> 0]
+        NewName(i) == N.name \o "~" \o INd(I, i).name
+        AddNode(acc, i) ==
+            LET nd == INd(I, i) IN
+            IF ~IsIo(I, i) THEN (IF i # des THEN [s |-> OpNewNode(acc.s, NewName(i), nd.kind), m |-> Put(acc.m, i, acc.s.nid)] ELSE acc)
+            ELSE IF (Len(nd.outs) > 0 /\ Len(nd.ins) > 0) \/ (Len(nd.ins) = 0 /\ Len(nd.outs) # 1)
+                 THEN [s |-> OpNewNode(acc.s, NewName(i), FORK), m |-> Put(acc.m, i, acc.s.nid)]      \* a port that needs a fork
+                 ELSE acc
+        a1 == FoldLeft(AddNode, [s |-> s0, m |-> m0], [i \in 1..Len(I.nodes) |-> i - 1])
+        m == a1.m
+        AddLine(acc, j) == LET L == ILn(I, j) IN
+            IF L[1] \in DOMAIN m /\ L[3] \in DOMAIN m THEN OpNewLine(acc, m[L[1]], L[2], m[L[3]], L[4]) ELSE acc
+        s2 == FoldLeft(AddLine, a1.s, [j \in 1..Len(I.lines) |-> j - 1])
+        ConnIn(acc, k) ==
+            LET ll == nodeIn[k]
+                inn == inN[k]
+            IN IF ll = 0 THEN acc
+               ELSE LET one == Len(INd(I, inn).outs) = 1
+                        l == ILn(I, INd(I, inn).outs[1])
+                        rdr == IF one THEN m[l[3]] ELSE m[inn]
+                        rpin == IF one THEN l[4] ELSE 0
+                    IN [acc EXCEPT !.ln[ll].rdr = rdr, !.ln[ll].rpin = rpin, !.nd[rdr].ins = GrowSet(@, rpin, ll)]
+        s3 == FoldLeft(ConnIn, s2, [k \in 1..Len(inN) |-> k])
+        ConnOut(acc, k) ==
+            LET ll == nodeOut[k]
+                L == ILn(I, outL[k])
+            IN IF ll = 0 THEN (IF L[1] \in DOMAIN m THEN Dangle(acc, m[L[1]]) ELSE acc)
+               ELSE LET via == Len(INd(I, L[3]).outs) > 0          \* the output is also read inside: connect to its fork
+                        drv == IF via THEN m[L[3]] ELSE m[L[1]]
+                        dpin == IF via THEN Len(INd(I, L[3]).outs) ELSE L[2]
+                    IN [acc EXCEPT !.ln[ll].drv = drv, !.ln[ll].dpin = dpin, !.nd[drv].outs = GrowSet(@, dpin, ll)]
+    IN FoldLeft(ConnOut, s3, [k \in 1..Len(outL) |-> k])
 \* ---- Circuit.copy / pickle round trip: rebuild through the constructors with explicit pins ----
 Rebuild(s) ==
     LET s1 == FoldLeft(LAMBDA acc, id : OpNewNode(acc, s.nd[id].name, s.nd[id].kind), [Empty EXCEPT !.nid = s.nid, !.lid = s.lid], s.nodes)
@@ -150,12 +215,21 @@ Rebuild(s) ==
 Copy == S' = Rebuild(S) /\ Did(<<"Copy">>)
 Pickle == S' = Rebuild(S) /\ Did(<<"Pickle">>)
 
+\* well-formed use of substitute: a cell that is not a port, pin counts within the implementation's ports, no line from
+\* the cell to itself, none of the names substitute() creates exists yet
+SubstOK(n, I) == /\ S.nd[n].kind # FORK /\ n \notin IoSet
+                 /\ Len(S.nd[n].ins) <= Len(InNodes(I)) /\ Len(S.nd[n].outs) <= Len(OutLines(I))
+                 /\ \A k \in 1..Len(S.nd[n].outs) : S.nd[n].outs[k] # 0 => S.ln[S.nd[n].outs[k]].rdr # n
+                 /\ \A i \in 1..Len(I.nodes) : LET nm == S.nd[n].name \o "~" \o I.nodes[i].name IN nm \notin DOMAIN S.cells /\ nm \notin DOMAIN S.forks
+Subst(n, k) == /\ SubstOK(n, IMPLS[k])
+               /\ S' = OpSubst(S, n, IMPLS[k]) /\ Did(<<"Subst", S.nd[n].idx, k - 1>>)
 Next == \/ \E name \in NAMES, kind \in CELLKINDS \cup {FORK} : NewNode(name, kind)
         \/ \E d \in LiveNodes, r \in LiveNodes, dspec \in -1..MAXPIN, rspec \in -1..MAXPIN : NewLine(d, dspec, r, rspec)
         \/ \E l \in LiveLines : RemoveLine(l)
         \/ \E n \in LiveNodes : RemoveNode(n)
         \/ \E n \in LiveNodes : AppendIo(n)
         \/ Eliminate \/ Copy \/ Pickle
+        \/ \E n \in LiveNodes, k \in SUBIMPLS : Subst(n, k)
 Spec == Init /\ [][Next]_vars
 
 \* ---------------- invariants (C09) ----------------
